@@ -15,7 +15,7 @@ use std::time::Instant;
 use thiserror::Error;
 use tiny_keccak::{Hasher as _, Keccak};
 
-use crate::circuit::{calculate_rln_witness, qap::CircomReduction, Curve};
+use crate::circuit::{qap::CircomReduction, try_calculate_rln_witness, Curve};
 use crate::hashers::{hash_to_field, poseidon_hash};
 use crate::poseidon_tree::*;
 use crate::public::RLN_IDENTIFIER;
@@ -672,7 +672,8 @@ pub fn generate_proof(
     // If in debug mode, we measure and later print time take to compute witness
     #[cfg(test)]
     let now = Instant::now();
-    let full_assignment = calculate_rln_witness(inputs, graph_data);
+    let full_assignment =
+        try_calculate_rln_witness(inputs, graph_data).map_err(ProofError::WitnessError)?;
 
     #[cfg(test)]
     println!("witness generation took: {:.2?}", now.elapsed());
